@@ -434,7 +434,9 @@ func expandGlob(root, pattern string) ([]string, error) {
 	var matches []string
 	ignoreHiddenGlobFn := func(path string, d fs.DirEntry) error {
 		if strings.HasPrefix(path, ".") {
-			return filepath.SkipDir
+			// Leave out hidden entries, but carry on with the rest of the directory
+			// (returning SkipDir here abandons every entry that sorts after this one)
+			return nil
 		}
 
 		abs, err := filepath.Abs(filepath.Join(root, path))
